@@ -71,7 +71,7 @@ func c05Variants() []protoVariant {
 
 func c05(r *hx.Run) {
 	fx.Quiet()
-	r.Rule = "bounded-exhaustive enumeration of (anchorFrom, anchorUntil) around every boundary of anchoring time T=1000 (incl. negative bounds) x operation type x protocol configurations varying the time delta independently of every other parameter (including the genesis time of the version); each case is executed on the real processor/applier (effect) and the real parser with a spy time validator (intake) and compared with the independent window predicate. Non-trivial: the window is declared (from or until non-zero)."
+	r.Rule = "bounded-exhaustive enumeration of (anchorFrom, anchorUntil) around every boundary of anchoring time T=1000 (incl. negative bounds) x operation type x protocol configurations varying the time delta independently of every other parameter (including the genesis time of the version); each case is executed on the real processor/applier (effect) and the real parser with a spy time validator (intake) and compared with the independent window predicate; under a second version with another delta every single protocol-version lookup of the resolution is also made to fail in turn (error, same result, or the result without the operation). Non-trivial: the window is declared (from or until non-zero)."
 	const T = 1000
 	kt, code := fx.Ed25519, fx.SHA256
 	keys := map[string]*fx.Key{}
@@ -194,6 +194,23 @@ func c05(r *hx.Run) {
 			r.Violation(fmt.Sprintf("window-under-version-at-anchoring-time:%s", j.typ), caseID,
 				fmt.Sprintf("%s (batched under the earlier protocol version) anchored at T=%d with anchorFrom=%d anchorUntil=%d resolves differently once a later protocol version with another delta is in force at T\n  one version : %s\n  two versions: %s",
 					j.typ, T, j.w.from, j.w.until, impl.Core(), impl2.Core()), nil)
+		}
+		// ... and when one protocol-version lookup of that resolution fails (each position in turn): an error, the same result, or
+		// the result without the operation - its window is never judged under the later version
+		if j.w.from != 0 || j.w.until != 0 {
+			allowed := map[Result]bool{impl: true, ProjectImpl(ResolveImpl(client, suffix, placed[:1])): true}
+			flakySweep(r, "window-under-another-version-after-failed-lookup:"+j.typ, caseID, hostileSecondVersion(ver, hostileGenesis), suffix, placed, allowed, 8)
+			// the later version differs in nothing but the delta (it would accept the operation and judge its window differently)
+			for _, d2 := range []uint64{delta + 100000, 1} {
+				p2 := j.v.p
+				p2.GenesisTime, p2.MaxOperationTimeDelta = hostileGenesis, d2
+				c2 := fx.NewClient(ver, fx.NewVersion(p2, nil))
+				c2.SetCurrent(ver)
+				if noFault := ProjectImpl(ResolveImpl(c2, suffix, placed)); noFault != impl {
+					r.Violation("window-under-version-at-anchoring-time:"+j.typ, caseID+fmt.Sprintf("|delta2=%d", d2), fmt.Sprintf("a later version with delta %d in force at T changes the result\n  one version : %s\n  two versions: %s", d2, impl.Core(), noFault.Core()), nil)
+				}
+				flakySweep(r, "window-under-another-version-after-failed-lookup:"+j.typ, caseID+fmt.Sprintf("|delta2=%d", d2), c2, suffix, placed, allowed, 8)
+			}
 		}
 		// intake: spy must see the effective window
 		_, perr := ver.Parser.Parse("did:sidetree", req)
